@@ -86,6 +86,8 @@ class Runtime:
                 vals.append(text)
         if not outs:
             return None
+        if nd["fn"] == "short":
+            return tuple(vals[:1])         # too few values for the declared outputs: the framework must reject the result
         return vals[0] if len(outs) == 1 else tuple(vals)
 
     def call(self, path, args):
@@ -440,7 +442,7 @@ def observe(rt, r):
     pause = {"path": IR.NONE, "key": IR.NONE, "value": IR.NONE}
     if r.pause is not None:
         pause = {"path": r.pause.node_name, "key": r.pause.output_param, "value": IR.canon(r.pause.value),
-                 "response_key": r.pause.response_key,
+                 "response_key": r.pause.response_key, "response_keys": dict(r.pause.response_keys),
                  "values": None if r.pause.values is None else {k: IR.canon(v) for k, v in r.pause.values.items()},
                  "output_params": None if r.pause.output_params is None else list(r.pause.output_params)}
     return {
